@@ -8,7 +8,8 @@
    load_plain a pl t d            : the same load with validation switched off
    full_report / capped_report / msgs_at / failing_paths (ArchSpec.v): what the exception must carry
    group fs                       : mErrorsMap after the calls fs (first-insertion order of the paths) *)
-From BS Require Import Base ArchSpec ArchModel ArchLemmas ArchValidation.
+From BS Require Import Base ArchSpec ArchModel ArchLemmas ArchProofs ArchValidation ArchXml.
+From BS Require ArchCodec.      (* qualified: its parsing notations (msg, fl) would capture variable names used here *)
 
 (* the failing rules of one field visit (VisitArgs): exactly the failing validators' messages, in
    declaration order, under the field's path *)
@@ -160,3 +161,76 @@ Example T_C17_example_F32 :
   truncated 1 ex_failures = true /\ truncated 2 ex_failures = false.
 Proof. exact ex_F32. Qed.
 Print Assumptions T_C17_example_F32.
+
+(* ------------------------------------------------------------------------------------------------------------ *)
+(* The XML archive (pugixml): xml_arch (ArchModel.v) is a fourth instance of [arch]; every theorem above is stated
+   for all [a] and holds for it as it is.  Spelled out for the two central ones: *)
+Theorem T_C17_xml_exact : forall pl t d v fs,
+  load_recording xml_arch pl t d = Ok (v, fs) ->
+  load_root xml_arch pl 0 t d = match fs with [] => Ok v | _ => Exc (EValidation (group fs)) end /\
+  full_report fs (group fs).
+Proof. exact (exact_thm xml_arch). Qed.
+Print Assumptions T_C17_xml_exact.
+
+Theorem T_C17_xml_capped_actual : forall pl k t d v fs, (0 < k)%nat ->
+  load_recording xml_arch pl t d = Ok (v, fs) ->
+  load_root xml_arch pl (N.of_nat k) t d =
+    match cut k fs with
+    | Some c => Exc (EValidation (group c))
+    | None => match fs with [] => Ok v | _ => Exc (EValidation (group fs)) end
+    end /\
+  (forall c, cut k fs = Some c ->
+     (exists rest, fs = c ++ rest /\ length (failing_paths c) = k) /\
+     reports c (firstn k (failing_paths fs)) (group c)) /\
+  (cut k fs = None -> (length (failing_paths fs) < k)%nat).
+Proof. exact (capped_actual_thm xml_arch). Qed.
+Print Assumptions T_C17_xml_capped_actual.
+
+(* What is different for XML is the PATH of a failure.  GetPath() is pugi::xml_node::path(): element names without
+   indices, starting with the name of the root element.  An array item contributes its element name, whatever its
+   position; in the indexed archives it contributes its index and the root contributes nothing. *)
+Theorem T_C17_xml_paths_without_indices :
+  (forall i d, item_seg xml_arch i d = item_name xml_names d) /\
+  (forall i j d1 d2, item_name xml_names d1 = item_name xml_names d2 -> item_seg xml_arch i d1 = item_seg xml_arch j d2) /\
+  (forall d, root_path xml_arch d = (slash ++ item_name xml_names d)%list) /\
+  (forall a i d, text_mode a = None -> item_seg a i d = dec_N (N.of_nat i) /\ root_path a d = []).
+Proof.
+  split; [|split; [|split]].
+  - exact xml_item_seg.
+  - exact xml_items_share_path.
+  - exact xml_root_path.
+  - intros a i d H. split; [apply indexed_item_seg|apply indexed_root_path]; assumption.
+Qed.
+Print Assumptions T_C17_xml_paths_without_indices.
+
+(* Consequence 1: WHICH item failed cannot be read off the report.  std::vector<Flat> from [bad, good] and from
+   [good, bad]: JSON reports /1/x resp. /2/x, through XML both loads throw the identical exception *)
+Theorem T_C17_xml_item_identity_refuted :
+  first_bad <> second_bad /\
+  load_root json_arch default_pols 0 (FVecObj ArchCodec.fields_flat) first_bad = Exc (EValidation [([47; 49; 47; 120]%N, [range_msg])]) /\
+  load_root json_arch default_pols 0 (FVecObj ArchCodec.fields_flat) second_bad = Exc (EValidation [([47; 50; 47; 120]%N, [range_msg])]) /\
+  load_root xml_arch default_pols 0 (FVecObj ArchCodec.fields_flat) first_bad
+    = Exc (EValidation [([47; 97; 114; 114; 97; 121; 47; 111; 98; 106; 101; 99; 116; 47; 120]%N, [range_msg])]) /\
+  load_root xml_arch default_pols 0 (FVecObj ArchCodec.fields_flat) second_bad
+    = load_root xml_arch default_pols 0 (FVecObj ArchCodec.fields_flat) first_bad.
+Proof. exact xml_item_identity_lost. Qed.
+Print Assumptions T_C17_xml_item_identity_refuted.
+
+(* Consequence 2: messages of items that share a path are merged under it, in document order (this is what
+   full_report / msgs_at demand of a report keyed by path: T_C17_xml_exact) *)
+Example T_C17_xml_messages_merged :
+  load_root xml_arch default_pols 0 (FVecObj ArchCodec.fields_flat) (DArr 2 [flat_doc 9; flat_doc 0])
+    = Exc (EValidation [([47; 97; 114; 114; 97; 121; 47; 111; 98; 106; 101; 99; 116; 47; 120]%N, [range_msg; range_msg])]) /\
+  load_root json_arch default_pols 0 (FVecObj ArchCodec.fields_flat) (DArr 2 [flat_doc 9; flat_doc 0])
+    = Exc (EValidation [([47; 49; 47; 120]%N, [range_msg]); ([47; 50; 47; 120]%N, [range_msg])]).
+Proof. exact xml_messages_merged. Qed.
+Print Assumptions T_C17_xml_messages_merged.
+
+(* Consequence 3: maxValidationErrors counts paths, so failing items of one array count once through XML *)
+Example T_C17_xml_cap_counts_paths :
+  (exists m, load_root xml_arch default_pols 2 (FVecObj ArchCodec.fields_flat) (DArr 2 [flat_doc 9; flat_doc 0; flat_doc 7]) = Exc (EValidation m)
+             /\ List.length m = 1%nat) /\
+  (exists m, load_root json_arch default_pols 2 (FVecObj ArchCodec.fields_flat) (DArr 3 [flat_doc 9; flat_doc 0; flat_doc 7]) = Exc (EValidation m)
+             /\ List.length m = 2%nat).
+Proof. exact xml_cap_counts_paths. Qed.
+Print Assumptions T_C17_xml_cap_counts_paths.
